@@ -176,7 +176,7 @@ fn laws_base() -> Vec<Law> {
         Law { name: "Exponential", setters: &["set_lambda"], lattice: vec![vec![1e-3, 1.0, 5.0, 1e3, 0.0, -1.0]], make: |p| Box::new(Exponential::new(p[0])), points: cont_pts.clone(), int_params: &[false], default: || (Box::new(Exponential::default()), vec![1.0]) },
         Law { name: "Uniform", setters: &["set_lower", "set_upper"], lattice: vec![vec![-5.0, 0.0, 1.0, 2.0, 5.0, 6.0], vec![-5.0, 0.0, 1.0, 2.0, 5.0, 6.0]], make: |p| Box::new(Uniform::new(p[0], p[1])), points: cont_pts.clone(), int_params: &[false, false], default: || (Box::new(Uniform::default()), vec![0.0, 1.0]) },
         Law { name: "Poisson", setters: &["set_lambda"], lattice: vec![vec![0.5, 3.0, 10.0, 42.0, 0.0, -1.0]], make: |p| Box::new(Poisson::new(p[0])), points: disc_pts.clone(), int_params: &[false], default: || (Box::new(Poisson::default()), vec![1.0]) },
-        Law { name: "Binomial", setters: &["set_n", "set_p"], lattice: vec![vec![0.0, 1.0, 15.0, 70.0], vec![0.0, 0.3, 0.5, 0.7, 1.0, -0.1, 1.5, NAN]], make: |p| Box::new(Binomial::new(p[0] as u64, p[1])), points: disc_pts.clone(), int_params: &[true, false], default: || (Box::new(Binomial::default()), vec![1.0, 0.5]) },
+        Law { name: "Binomial", setters: &["set_n", "set_p"], lattice: vec![vec![0.0, 1.0, 15.0, 70.0, 400.0], vec![0.0, 0.3, 0.5, 0.7, 1.0, 0.25, 0.75, -0.1, 1.5, NAN]], make: |p| Box::new(Binomial::new(p[0] as u64, p[1])), points: disc_pts.clone(), int_params: &[true, false], default: || (Box::new(Binomial::default()), vec![1.0, 0.5]) },
         Law { name: "Bernoulli", setters: &["set_p"], lattice: vec![vec![0.0, 0.25, 0.5, 1.0, -0.1, 1.5, NAN]], make: |p| Box::new(Bernoulli::new(p[0])), points: disc_pts.clone(), int_params: &[false], default: || (Box::new(Bernoulli::default()), vec![0.5]) },
         Law { name: "DiscreteUniform", setters: &["set_lower", "set_upper"], lattice: vec![vec![-5.0, 0.0, 1.0, 2.0, 5.0, 6.0], vec![-5.0, 0.0, 1.0, 2.0, 5.0, 6.0]], make: |p| Box::new(DiscreteUniform::new(p[0] as i64, p[1] as i64)), points: disc_pts.clone(), int_params: &[true, true], default: || (Box::new(DiscreteUniform::default()), vec![0.0, 1.0]) },
     ]
@@ -456,6 +456,15 @@ fn explore_law(run: &'static Run, law: Arc<Law>) {
         } else {
             run.outcome(&(law.name, "same", s.model.len()));
         }
+        // the same observation made on a thread that has never sampled anything: nothing may depend on what other
+        // objects did on this thread before
+        {
+            let (mk, params, pts) = (law.make, s.params.clone(), law.points.clone());
+            let d = std::thread::scope(|sc| sc.spawn(move || observe(&*mk(&params), &pts)).join()).unwrap_or_default();
+            if d != a {
+                run.violate(&format!("{}/depends-on-thread-history", law.name), || format!("state {} after {:?}: differs from {}::new({:?}) observed on a fresh thread: {}", s.key, pathf().iter().map(|o| o.show(law)).collect::<Vec<_>>(), law.name, s.params, describe_diff(&a, &d, law.points.len())));
+            }
+        }
         // reproducibility of the seeded stream
         let c = observe(&*s.obj, &law.points);
         if c != a {
@@ -536,6 +545,35 @@ pub fn run(run: &Run) {
         }
     }
     run.require_regime("bulk-reproducible");
+    // "does not depend on how many other distribution objects exist": every ordered pair (first, second) of valid
+    // parameter tuples of a law — the second object is observed right after the first one was sampled on this
+    // thread, and must look exactly as it does on a thread that never sampled anything
+    for l in laws() {
+        let mut tuples: Vec<Vec<f64>> = vec![vec![]];
+        for lat in &l.lattice {
+            tuples = tuples.iter().flat_map(|t| lat.iter().map(move |v| { let mut u = t.clone(); u.push(*v); u })).collect();
+        }
+        let tuples: Vec<Vec<f64>> = tuples.into_iter().filter(|t| accepts(&l, t)).collect();
+        let fresh: Vec<Vec<u64>> = tuples.iter().map(|t| { let (mk, t, pts) = (l.make, t.clone(), l.points.clone()); std::thread::scope(|sc| sc.spawn(move || observe(&*mk(&t), &pts)).join()).unwrap_or_default() }).collect();
+        let cap = if run.thorough() { usize::MAX } else { 48 };
+        for (i, t1) in tuples.iter().enumerate().take(cap) {
+            for (j, t2) in tuples.iter().enumerate().take(cap) {
+                run.case();
+                run.trs(2);
+                run.ok();
+                run.nontrivial(1);
+                let _ = observe(&*(l.make)(t1), &l.points[..1]);
+                let o = observe(&*(l.make)(t2), &l.points);
+                if o != fresh[j] {
+                    run.violate(&format!("{}/depends-on-other-objects", l.name), || format!("{}::new({:?}) observed right after {}::new({:?}) was sampled on the same thread differs from the same object on a fresh thread: {}", l.name, t2, l.name, t1, describe_diff(&o, &fresh[j], l.points.len())));
+                } else {
+                    run.regime("independent-of-other-objects");
+                }
+                let _ = i;
+            }
+        }
+    }
+    run.require_regime("independent-of-other-objects");
     // construction of other objects consumes no randomness
     for &seed in &seeds() {
         run.case();
